@@ -56,7 +56,7 @@ CHECKS.update({
     "C03": dict(cat="model_checking", design="7/C03", note=PIPE_NOTE, technique="TLA+ term model Pipeline.tla (suffix rules, encoded vs uncompressed size, data-carrying records, sign-then-encrypt wrapping, empty-record rule) checked by TLC over the configuration x operation x size x name-kind matrix; every sampled matrix cell executed on the real pipeline through fs, Restore, Fetch, reopen and rebuild",
                 text="TLC evaluates C03_RoundTrip and C03_SuffixInverse on all 1152 cells of the protocol model and the check aborts if the model no longer detects the repaired suffix defect. Cells (compression x level x encryption x signature x record size x write cache x size class x distribution x name kind incl. names that end in the pipeline suffix) are executed on the real code: created-never-written, fs write/read, reopen, Operations.Restore, recovery.Fetch at the indexed position, content update, empty update, archive-with-content, rebuild, and the non-regular codec parameters / tape-writer padding through a build-tag hook; bytes and reported size must equal what was written."),
     "C08": dict(cat="model_checking", design="7/C08", note=PIPE_NOTE, technique="TLA+ Pipeline.tla property C08_OnlySigned (adversary without the signing key, 5 forgery kinds) checked by TLC; on real tapes single-byte alterations and structured forgeries are applied and every header the indexer accepts / every restored content is compared with what the untouched tape yields",
-                text="The protocol model shows that a reader accepting only headers whose signature verifies under the writer's key rejects every forgery the adversary can build. On real tapes written under {minisign, pgp} x encryption x compression, bytes are altered (spread positions plus every record's header, PAX and data regions; thorough: every third byte) and forged archives are appended (unsigned member, missing/empty/garbage/re-encoded signature, reused or swapped signature, edited header with kept signature, other key); the rebuilt index may only contain headers the untouched tape yields and each restore returns bytes signed under that name or an error, without hang or panic."),
+                text="The protocol model shows that a reader accepting only headers whose signature verifies under the writer's key rejects every forgery the adversary can build. On real tapes written under {minisign, pgp} x encryption x compression, bytes are altered (spread positions plus every record's header, PAX and data regions; thorough: every fifth byte) and forged archives are appended (unsigned member, missing/empty/garbage/re-encoded signature, reused or swapped signature, edited header with kept signature, other key); the rebuilt index may only contain headers the untouched tape yields and each restore returns bytes signed under that name or an error, without hang or panic."),
     "C09": dict(cat="model_checking", design="7/C09", note=PIPE_NOTE, technique="TLA+ Pipeline.tla properties C09_Clear (parts derivable without keys) and C09_WrongKey checked by TLC; marker search (raw, hex, base64 x3) over the raw tape, key-less outer-header inspection and wrong-key rebuild/fetch on real tapes",
                 text="In the term model nothing but sealed terms and sizes is derivable from a record without the key, for every operation kind. Real histories embedding unique markers in names, renamed names, contents, owners and timestamps are written under {age, pgp} x signature x compression; no marker or STFS keyword may occur on the raw tape in raw, hex or base64 form, key-less parsing of every outer header may show only the stored size and one STFS.EmbeddedHeader record, and rebuilding or fetching with another private key must fail."),
 })
